@@ -49,7 +49,7 @@ def plan(tier, seed):
 
 FAULTS = ['server_stopped', 'poll_errors', 'send_fails', 'send_fails_during_flush', 'plugin0_shutdown',
           'plugin1_shutdown', 'plugin2_shutdown', 'poll_slow', 'same_plugin_names', 'plugin_named_poll',
-          'first_send_fails_rest_slow', 'deregistering_plugin0', 'update_queued_behind_sends']
+          'first_send_fails_rest_slow', 'deregistering_plugin0', 'update_queued_behind_sends', 'hits_during_shutdown']
 
 
 def gen_case(seed):
@@ -61,6 +61,9 @@ def gen_case(seed):
                                        'first_send_fails_rest_slow'])]
     if 'first_send_fails_rest_slow' in faults:
         faults = [f for f in faults if f not in ('send_fails', 'send_fails_during_flush', 'server_stopped')]
+    if 'hits_during_shutdown' in faults:
+        faults = ['hits_during_shutdown'] + [f for f in faults if f in ('same_plugin_names', 'plugin1_shutdown')]
+        nplug = max(nplug, 2)
     if 'update_queued_behind_sends' in faults:
         faults = [f for f in faults if f not in ('send_fails', 'send_fails_during_flush', 'server_stopped',
                                                  'first_send_fails_rest_slow', 'poll_errors', 'poll_slow')]
@@ -91,6 +94,17 @@ def judge(case, res, out, replay):
         op = o['op']
         if op == 'swap':
             pre = o['hooks']      # the application changed its own hooks while the agent was shut down
+            continue
+        if op == 'hits-during-shutdown':
+            out.count('lifecycles_with_hits_during_shutdown')
+            # the one hit that is being collected at the instant the trigger handler is stopped may find delivery
+            # closed already (it is refused, C09); no further hit is collected after that instant
+            if o['never_sent'] > 1:
+                out.violation('shutdown:collected-but-never-sent', '%d of %d snapshots collected by the one thread that kept '
+                                                                   'running during shutdown were never delivered (more '
+                                                                   'than the single hit that can be in flight)' % (
+                                                                       o['never_sent'], o['collected']), witness, replay)
+                return False
             continue
         if case['no_trace']:
             if o['hooks'] != pre:
@@ -355,6 +369,18 @@ def child_lifecycle(case):
                         # not bring the tracepoints back after shutdown.
                         gate = threading.Event()
                         srv.send_gate = gate
+                    if 'hits_during_shutdown' in case['faults']:
+                        # another thread keeps reaching the tracepoints while shutdown runs (sends are answered slowly,
+                        # so the drain takes a moment): whatever is still collected is also delivered
+                        srv.send_delay = 0.15
+                        hitter_stop = threading.Event()
+
+                        def keep_hitting():
+                            while not hitter_stop.is_set():
+                                e2e_target.run(1)
+                        hitter = threading.Thread(target=keep_hitting, name='hitter')
+                        hitter.start()
+                        parked['hitter'] = (hitter, hitter_stop)
                     if 'poll_errors' in case['faults']:
                         srv.script = [('error', grpc.StatusCode.UNAVAILABLE)] * 50
                     before = len(plugins.events(None, 'decorate')) + _count_snap_events(srv)
@@ -386,6 +412,17 @@ def child_lifecycle(case):
                     agent.shutdown()
                 except BaseException as e:  # noqa
                     shutdown_raised.append(repr(e))
+                if 'hitter' in parked:
+                    hitter, hitter_stop = parked.pop('hitter')
+                    hitter_stop.set()
+                    hitter.join(20)
+                    accepted[0] = None
+                    time.sleep(0.5)     # (sends that were accepted are answered 0.15 s late)
+                    decorated = {str(e[4]['snapshot']) for e in plugins.EVENTS if e[3] == 'decorate'}
+                    received = {rec[0].ID.hex() for rec in srv.snapshots}
+                    lost = sorted(x for x in decorated if x.replace('-', '') not in received and x not in received)
+                    obs.append({'op': 'hits-during-shutdown', 'collected': len(decorated), 'never_sent': len(lost),
+                                'hooks': hooks()})
                 if 'server_stopped' in case['faults']:
                     accepted[0] = None
                 observe('shutdown#%d' % (len([o for o in obs if o['op'].startswith('shutdown')]) + 1))
